@@ -55,6 +55,12 @@ Proofs/SkipListFacts.vos Proofs/SkipListFacts.vok Proofs/SkipListFacts.required_
 Proofs/ZSetsFacts.vo Proofs/ZSetsFacts.glob Proofs/ZSetsFacts.v.beautified Proofs/ZSetsFacts.required_vo: Proofs/ZSetsFacts.v Base/Bytes.vo Model/Resp.vo Model/Types.vo Model/Strings.vo Model/SkipList.vo Model/ZSets.vo Spec/ZSet.vo Proofs/BytesFacts.vo Proofs/SkipListFacts.vo
 Proofs/ZSetsFacts.vio: Proofs/ZSetsFacts.v Base/Bytes.vio Model/Resp.vio Model/Types.vio Model/Strings.vio Model/SkipList.vio Model/ZSets.vio Spec/ZSet.vio Proofs/BytesFacts.vio Proofs/SkipListFacts.vio
 Proofs/ZSetsFacts.vos Proofs/ZSetsFacts.vok Proofs/ZSetsFacts.required_vos: Proofs/ZSetsFacts.v Base/Bytes.vos Model/Resp.vos Model/Types.vos Model/Strings.vos Model/SkipList.vos Model/ZSets.vos Spec/ZSet.vos Proofs/BytesFacts.vos Proofs/SkipListFacts.vos
+Proofs/F64Facts.vo Proofs/F64Facts.glob Proofs/F64Facts.v.beautified Proofs/F64Facts.required_vo: Proofs/F64Facts.v Base/Bytes.vo Model/Resp.vo Model/Types.vo Model/Strings.vo Model/SkipList.vo Model/ZSets.vo Spec/ZSet.vo Proofs/ZSetsFacts.vo
+Proofs/F64Facts.vio: Proofs/F64Facts.v Base/Bytes.vio Model/Resp.vio Model/Types.vio Model/Strings.vio Model/SkipList.vio Model/ZSets.vio Spec/ZSet.vio Proofs/ZSetsFacts.vio
+Proofs/F64Facts.vos Proofs/F64Facts.vok Proofs/F64Facts.required_vos: Proofs/F64Facts.v Base/Bytes.vos Model/Resp.vos Model/Types.vos Model/Strings.vos Model/SkipList.vos Model/ZSets.vos Spec/ZSet.vos Proofs/ZSetsFacts.vos
 Props/C20.vo Props/C20.glob Props/C20.v.beautified Props/C20.required_vo: Props/C20.v Base/Bytes.vo Model/Resp.vo Proofs/BytesFacts.vo Proofs/RespFacts.vo
 Props/C20.vio: Props/C20.v Base/Bytes.vio Model/Resp.vio Proofs/BytesFacts.vio Proofs/RespFacts.vio
 Props/C20.vos Props/C20.vok Props/C20.required_vos: Props/C20.v Base/Bytes.vos Model/Resp.vos Proofs/BytesFacts.vos Proofs/RespFacts.vos
+Props/C04.vo Props/C04.glob Props/C04.v.beautified Props/C04.required_vo: Props/C04.v Base/Bytes.vo Model/Resp.vo Model/Types.vo Model/Strings.vo Model/SkipList.vo Model/ZSets.vo Spec/ZSet.vo Proofs/BytesFacts.vo Proofs/SkipListFacts.vo Proofs/ZSetsFacts.vo Proofs/F64Facts.vo
+Props/C04.vio: Props/C04.v Base/Bytes.vio Model/Resp.vio Model/Types.vio Model/Strings.vio Model/SkipList.vio Model/ZSets.vio Spec/ZSet.vio Proofs/BytesFacts.vio Proofs/SkipListFacts.vio Proofs/ZSetsFacts.vio Proofs/F64Facts.vio
+Props/C04.vos Props/C04.vok Props/C04.required_vos: Props/C04.v Base/Bytes.vos Model/Resp.vos Model/Types.vos Model/Strings.vos Model/SkipList.vos Model/ZSets.vos Spec/ZSet.vos Proofs/BytesFacts.vos Proofs/SkipListFacts.vos Proofs/ZSetsFacts.vos Proofs/F64Facts.vos
